@@ -112,11 +112,13 @@ pub struct GenCfg {
   pub big: bool,
   /// Also use wrapper families around the inner type of family 0 (identity probes).
   pub wrappers: bool,
+  /// Use pie's file resource (family 4) as a backend too.
+  pub files: bool,
 }
 
 impl Default for GenCfg {
   fn default() -> Self {
-    GenCfg { class: Class::W, bottom_up: 0, td_between: false, all_roots_td: false, crash: false, check_errors: false, rw_errors: false, exact_only_pct: 40, sim_fams_only: true, replays: 0, big: false, wrappers: false }
+    GenCfg { class: Class::W, bottom_up: 0, td_between: false, all_roots_td: false, crash: false, check_errors: false, rw_errors: false, exact_only_pct: 40, sim_fams_only: true, replays: 0, big: false, wrappers: false, files: false }
   }
 }
 
@@ -146,6 +148,16 @@ fn pick_rk(rng: &mut Rng, exact_only: bool) -> RK {
   }
 }
 
+/// The map resource has no version counter; the modification time of a file written by a task comes from the real
+/// clock (coarse granularity), so version stamps are only used on source files, whose mtimes the harness sets.
+fn adjust_kind(k: RK, fam: u8, generated: bool) -> RK {
+  match (k, fam) {
+    (RK::Version, 2 | 3) => RK::Exact,
+    (RK::Version, 4) if generated => RK::Exact,
+    _ => k,
+  }
+}
+
 fn pick_ok(rng: &mut Rng, exact_only: bool) -> OK {
   if exact_only { return OK::Equals; }
   match rng.below(10) {
@@ -162,6 +174,7 @@ impl TaskGen<'_> {
   fn rchk_for(&mut self, res: usize) -> RK {
     if let Some(k) = self.rchk.get(&res) { return *k; }
     let mut k = pick_rk(self.rng, self.exact_only);
+    k = adjust_kind(k, self.resources[res].fam, self.writer.contains_key(&res));
     if let Some(w) = self.wchk.get(&res) {
       // A reader's checker must not be finer than the writer's checker.
       if !w.determines_obs(&k) { k = *w; }
@@ -258,7 +271,7 @@ fn always_required(ops: &[Op], chain: &BTreeMap<Tid, BTreeSet<Tid>>) -> BTreeSet
   s
 }
 
-pub fn gen_keys(rng: &mut Rng, ntasks: usize, nres: usize, sim_only: bool, wrappers: bool) -> (Vec<TaskKey>, Vec<ResKey>) {
+pub fn gen_keys(rng: &mut Rng, ntasks: usize, nres: usize, sim_only: bool, wrappers: bool, files: bool) -> (Vec<TaskKey>, Vec<ResKey>) {
   // Ids are drawn from a small range so that different families share ids (identity = (type, value)).
   let mut tasks = vec![];
   while tasks.len() < ntasks {
@@ -266,7 +279,7 @@ pub fn gen_keys(rng: &mut Rng, ntasks: usize, nres: usize, sim_only: bool, wrapp
     if !tasks.contains(&k) { tasks.push(k); }
   }
   let mut res = vec![];
-  let nfam = if sim_only { 2 } else { 4 };
+  let nfam = if files { 5 } else if sim_only { 2 } else { 4 };
   while res.len() < nres {
     let k = ResKey { fam: rng.below(nfam) as u8, id: rng.below(4) as u32 };
     if !res.contains(&k) { res.push(k); }
@@ -281,7 +294,7 @@ pub fn gen_program_w(rng: &mut Rng, cfg: &GenCfg) -> Program {
 
 pub fn gen_program_w_sized(rng: &mut Rng, cfg: &GenCfg, ntasks: usize, nres: usize) -> Program {
   let exact_only = rng.chance(cfg.exact_only_pct);
-  let (keys, resources) = gen_keys(rng, ntasks, nres, cfg.sim_fams_only, cfg.wrappers);
+  let (keys, resources) = gen_keys(rng, ntasks, nres, cfg.sim_fams_only, cfg.wrappers, cfg.files);
   let mut writer = BTreeMap::new();
   let mut wchk = BTreeMap::new();
   let gen_pct = if cfg.big { rng.range(0, 35) } else { rng.range(20, 60) };
@@ -289,7 +302,7 @@ pub fn gen_program_w_sized(rng: &mut Rng, cfg: &GenCfg, ntasks: usize, nres: usi
     if rng.chance(gen_pct) {
       writer.insert(r, rng.below(ntasks as u64) as usize);
       let k = if exact_only || rng.chance(60) { RK::Exact } else { pick_rk(rng, false) };
-      wchk.insert(r, k);
+      wchk.insert(r, adjust_kind(k, resources[r].fam, true));
     }
   }
   let mut tasks: Vec<TaskDef> = keys.iter().map(|k| TaskDef { key: *k, ops: vec![] }).collect();
